@@ -11,6 +11,7 @@ From JB Require Import PathSafe.
 From JB Require Import SerdeWalk.
 From JB Require Import KeysWalk.
 From JB Require Import EditWalk.
+From JB Require Import EditWalk2.
 Extraction Language OCaml.
 Extraction "model.ml"
   to_vec write_to_vec enc parse_jsonb is_jsonb assoc_insert compact_encode num_decode num_decode_old num_cmp
@@ -29,4 +30,5 @@ Extraction "model.ml"
   to_serde_json_object_m value_to_serde serde_to_value to_serde_json_w to_serde_json_object_w exists_all_keys_w
   exists_any_keys_w parse_lazy_value lazy_to_vec lazy_array_length lazy_to_value parse_json_path parse_key_paths
   show_json_path show_key_paths float_placeholder safe_path leaf_path no_floats concat_w delete_by_name_w
-  delete_by_index_w array_insert_w build_array_w build_object_w build_array_st build_object_st.
+  delete_by_index_w array_insert_w build_array_w build_object_w build_array_st build_object_st object_insert_w
+  object_delete_w object_pick_w strip_nulls_w delete_by_keypath_w.
